@@ -1178,8 +1178,8 @@ register_Vec2Array()
 
     class_<FixedArray<IMATH_NAMESPACE::Vec2<T> > > vec2Array_class = FixedArray<IMATH_NAMESPACE::Vec2<T> >::register_("Fixed length array of IMATH_NAMESPACE::Vec2");
     vec2Array_class
-        .add_property("x",&Vec2Array_get<T,0>)
-        .add_property("y",&Vec2Array_get<T,1>)
+        .add_property("x",boost::python::make_function(&Vec2Array_get<T,0>,boost::python::with_custodian_and_ward_postcall<0,1>()))
+        .add_property("y",boost::python::make_function(&Vec2Array_get<T,1>,boost::python::with_custodian_and_ward_postcall<0,1>()))
         .def("__setitem__", &setItemTuple<T,tuple>)
         .def("__setitem__", &setItemTuple<T,list>)
         .def("min", &Vec2Array_min<T>)
